@@ -126,6 +126,17 @@ def export_check(program, built, solver, prims, leaves, job):
                             for _i, row in df.iterrows()]
                 if got_rows != want_rows:
                     bad("df:rows", leaf, got=got_rows, want=want_rows)
+                # what a caller does with a returned frame must not leak into later exports
+                try:
+                    df.iloc[0, df.columns.get_loc("Start")] = 999
+                    df.iloc[0, df.columns.get_loc("Task name")] = "edited-by-caller"
+                except Exception:
+                    pass
+                df2 = sol.to_df()
+                got_rows2 = [[row["Task name"], list(row["Allocated Resources"]), int(row["Start"]), int(row["End"]), int(row["Duration"]), bool(row["Scheduled"])]
+                             for _i, row in df2.iterrows()]
+                if got_rows2 != want_rows:
+                    bad("df:second-call-differs", leaf, got=got_rows2, want=want_rows)
                 for sep in (",", ";"):
                     texts = [sol.to_csv(separator=sep)]
                     p = os.path.join(tmp, "s.csv")
